@@ -190,6 +190,7 @@ class _EvaluatorCompiler:
 
     def visit_and_clauselist_op(self, operator, evaluators, clause):
         def evaluate(obj):
+            has_null = False
             for sub_evaluate in evaluators:
                 value = sub_evaluate(obj)
                 if value is _EXPIRED_OBJECT:
@@ -197,8 +198,12 @@ class _EvaluatorCompiler:
 
                 if not value:
                     if value is None or value is _NO_OBJECT:
-                        return None
-                    return False
+                        # NULL AND FALSE is FALSE; keep looking for a FALSE
+                        has_null = True
+                    else:
+                        return False
+            if has_null:
+                return None
             return True
 
         return evaluate
